@@ -83,8 +83,13 @@ func (e *Env) BuildExec(name string, tags string, race bool) (string, error) {
 	os.WriteFile(filepath.Join(e.Scratch, name+".go.sum"), nil, 0o644)
 	bin := filepath.Join(e.Scratch, name)
 	t := "verif"
-	if tags != "" {
-		t += "," + tags
+	goarch := ""
+	for _, tg := range strings.Split(tags, ",") {
+		if strings.HasPrefix(tg, "arch=") { // pseudo-tag: another word size (arch=386: 32-bit words, base 10^9)
+			goarch = tg[5:]
+		} else if tg != "" {
+			t += "," + tg
+		}
 	}
 	args := []string{"build", "-modfile=" + mod, "-tags", t, "-o", bin}
 	if race {
@@ -94,6 +99,9 @@ func (e *Env) BuildExec(name string, tags string, race bool) (string, error) {
 	cmd := exec.Command("go", args...)
 	cmd.Dir = filepath.Join(e.Home, "harness")
 	cmd.Env = goEnv()
+	if goarch != "" {
+		cmd.Env = append(cmd.Env, "GOARCH="+goarch, "CGO_ENABLED=0")
+	}
 	out, err := cmd.CombinedOutput()
 	if err != nil {
 		return "", fmt.Errorf("go build failed: %v\n%s", err, out)
